@@ -248,6 +248,10 @@ func (a *ics20) recv(ctx sdk.Context, p channeltypes.Packet) error {
 	if strings.TrimSpace(d.Sender) == "" || strings.TrimSpace(d.Receiver) == "" {
 		return errors.New("blank address")
 	}
+	// ValidatePrefixedDenom: the base denomination must not be blank (identifier syntax of the trace is not modelled)
+	if strings.TrimSpace(transfertypes.ParseDenomTrace(d.Denom).BaseDenom) == "" {
+		return errors.New("base denomination cannot be blank")
+	}
 	receiver, err := sdk.AccAddressFromBech32(d.Receiver)
 	if err != nil {
 		return err
